@@ -708,7 +708,9 @@ pub fn work_list(cfg: &RunCfg) -> WorkList {
         return w;
     }
     let feats = feats_for(&cfg.prop);
-    let thorough = cfg.tier == "thorough";
+    // C05 drives every pattern through every public entry point (about ten times the work
+    // per pattern): its thorough tier deepens the text bound, not the pattern list
+    let thorough = cfg.tier == "thorough" && cfg.prop != "C05";
     let mut fixed: Vec<Item> = Vec::new();
     for w in corpus::WITNESSES.iter() {
         fixed.push(Item::new(w, "witness"));
